@@ -17,13 +17,15 @@ func init() {
 		Explanation: "C12.a DOM: snapshot.Store.Open resolves and streams files only after ensureVerified returned nil; reapInternal builds a new plan only after ensureVerified returned nil (resuming an already persisted plan is the documented exception); store.Store.Open runs EnsureVerify before raft.NewRaft on every path where NoSnapshotRestoreOnStart is not set. " +
 			"C12.b DOM (coverage of the verification): checkCRCs adds, for every snapshot of the catalog, its database file when present and every one of its WAL files — the inner loop over walFiles is reached in every iteration of the outer loop, not only for some snapshot kinds — and returns the checker's verdict; ensureVerified runs it once and keeps the error. " +
 			"C12.c WHO: streams served from the snapshot store are built with the checksum-carrying constructor (NewChecksummedSnapshotStreamer, header CRCs taken from the verified sidecars); the recomputing constructor is used only for the local, freshly checkpointed database (fsmSnapshot, RecoverNode). " +
-			"C12.d DOM: every data file created in a snapshot directory gets a CRC sidecar on the same success path: FullSink.Close (database and each WAL), WALWriter.Close (before the segment is marked valid), the reap plan (CalcCRC32 after Checkpoint, C07.b), and the receiver recomputes CRCs while writing (C10.a/b).",
+			"C12.d DOM: every data file created in a snapshot directory gets a CRC sidecar on the same success path: FullSink.Close (database and each WAL), WALWriter.Close (before the segment is marked valid), the reap plan (CalcCRC32 after Checkpoint, C07.b), and the receiver recomputes CRCs while writing (C10.a/b). " +
+			"C12.e DOM/CONST: the comparison can be skipped only for a sidecar explicitly marked Disabled — ChecksummedFile.Check returns success without computing the file's CRC only behind the true edge of that flag and otherwise returns (computed == recorded); NewChecksummedFileFromFiles succeeds without a parsed CRC only behind the same flag; Sidecar.CRC32 succeeds only behind the test of the known checksum type.",
 		NotCovered: []string{"detection power of CRC32", "corruption introduced after the one-shot verification of this process lifetime"},
 		Run:        runC12,
 	})
 }
 
 func runC12(c *core.Ctx) {
+	c12e(c)
 	// C12.a
 	if fn := c.Fn("C12.a", "snapshot", "(*Store).Open"); fn != nil {
 		var ev ssa.CallInstruction
